@@ -143,6 +143,30 @@ Section Generic.
   Definition b_fromnat (a : msg) : msg :=
     mkmsg (fam a) (scalar a) (map (of_nat (fam a)) (nat_of a)) (lognorm a) (mid a) (lo a) (hi a).
 
+  (* ---------- in-place item assignment and queries ---------- *)
+  (* AbstractMessage.__setitem__(i, value): the i-th entry of every parameter array is replaced by the
+     parameter of the (scalar) value; nothing else of the message changes; an index outside the array
+     leaves it unchanged here (the code raises IndexError; the generator stays inside) *)
+  Fixpoint replace_nth {A} (l : list A) (i : nat) (x : A) : list A :=
+    match l, i with
+    | [], _ => []
+    | _ :: r, 0%nat => x :: r
+    | y :: r, S j => y :: replace_nth r j x
+    end.
+  Definition setitem (a : msg) (i : nat) (p : list T) : msg :=
+    mkmsg (fam a) (scalar a) (replace_nth (elems a) i p) (lognorm a) (mid a) (lo a) (hi a).
+
+  (* every query is a function of the CURRENT parameters: mean and variance where they are IEEE-exact *)
+  Definition q_moments (f : family) (p : list T) : option (T * T) :=
+    match f, p with
+    | FNormal, [mu; sg] => Some (mu, omul O sg sg)
+    | FGamma, [a; b] => Some (odiv O a b, odiv O a (omul O b b))
+    | FBeta, [a; b] =>
+        let s := oadd O a b in
+        Some (odiv O a s, odiv O (odiv O (omul O a b) (omul O s s)) (oadd O s (c1 O)))
+    | _, _ => None
+    end.
+
   (* ---------- transformed messages ---------- *)
   Inductive mval :=
   | MB (m : msg)
@@ -368,6 +392,10 @@ Inductive case :=
         (obs_elems : list (list float)) (obs_lognorm : list float) (obs_id : Z) (obs_l obs_h : float)
 (* cls.project raised *)
 | CProjExc (f : family)
+(* history on an array message: the queries (parameters, natural parameters, mean, variance) observed
+   on the initial message and after every in-place `m[i] = value` *)
+| CHist (f : family) (elems0 : list (list float)) (steps : list (nat * list float))
+        (obs : list (list (list float) * list (list float) * list (float * float)))
 (* m._transform_det(x) = (y, logd) and m.factor(x), given base_message.logpdf(y) as an oracle value *)
 | CDet (tb : tabs) (stack : list (transform float)) (x : float) (base_lp : float)
        (obs_y obs_logd obs_factor : float)
@@ -378,8 +406,35 @@ Inductive case :=
          (obs_stack : list (transform float)) (obs_tid : option Z) (obs_tl obs_th : float)
          (obs_elems : list (list float)) (obs_lognorm : list float) (obs_id : Z) (obs_l obs_h : float).
 
+Definition fpair_eqb (a b : float * float) : bool := fbits_eqb (fst a) (fst b) && fbits_eqb (snd a) (snd b).
+
+(* model queries of one state; moments are compared only where the model defines them *)
+Definition hist_query_ok (O : ops float) (m : msg (T := float))
+           (o : list (list float) * list (list float) * list (float * float)) : bool :=
+  let '(oe, on, om) := o in
+  list_eqb flist_eqb (elems m) oe && list_eqb flist_eqb (nat_of O m) on
+  && forallb (fun x => x)
+       (map2 (fun p ob => match q_moments O (fam m) p with Some mv => fpair_eqb mv ob | None => true end) (elems m) om)
+  && Nat.eqb (length om) (length (elems m)).
+
+Fixpoint hist_ok (O : ops float) (m : msg (T := float)) (steps : list (nat * list float))
+         (obs : list (list (list float) * list (list float) * list (float * float))) : bool :=
+  match obs with
+  | [] => match steps with [] => true | _ => false end
+  | o :: obs' =>
+      hist_query_ok O m o &&
+      match steps with
+      | [] => match obs' with [] => true | _ => false end
+      | (i, p) :: steps' => hist_ok O (setitem m i p) steps' obs'
+      end
+  end.
+
+Definition no_tabs : tabs := mktabs [] [] [] [] [] [] [] [] [].
+
 Definition check_case (c : case) : bool :=
   match c with
+  | CHist f e0 steps obs =>
+      hist_ok (fops false no_tabs) (mkmsg f false e0 0%float 0%Z neg_infinity infinity) steps obs
   | CProjExc f => family_eqb f FBeta && negb (beta_project_ok cur)
   | CDet tb st x lp oy ol ofac =>
       let O := fops true tb in
